@@ -168,3 +168,25 @@ pub fn guarded<T, F: FnOnce() -> T + std::panic::UnwindSafe>(f: F) -> Result<T, 
 pub fn quiet_panics() {
     std::panic::set_hook(Box::new(|_| {}));
 }
+
+/// f64 or Complex<f64>, converted to/from complex for recording
+pub trait Scalar: nalgebra::ComplexField<RealField = f64> + Copy + num_traits::FromPrimitive {
+    fn to_c(self) -> C64;
+    fn of_c(c: C64) -> Self;
+}
+impl Scalar for f64 {
+    fn to_c(self) -> C64 {
+        C64::new(self, 0.0)
+    }
+    fn of_c(c: C64) -> f64 {
+        c.re
+    }
+}
+impl Scalar for C64 {
+    fn to_c(self) -> C64 {
+        self
+    }
+    fn of_c(c: C64) -> C64 {
+        c
+    }
+}
